@@ -48,14 +48,12 @@ func randCfg(rng *rand.Rand, k int) Cfg {
 	case 2:
 		c.FileSize = 4096
 	}
-	if c.Ext0 {
-		// rewinds over buffered bytes (attempts that fail after their tx-log append when cLogBuf is full,
-		// commit loops that stop midway) only occur under external commit allowance; chunk rotation
-		// would flush part of those bytes to the file, which the model does not represent
-		c.FileSize = 0
-	}
-	// preallocation writes FileSize zero bytes per log: only with the small chunk sizes, except rarely
-	c.Prealloc = (c.FileSize != 0 && rng.Intn(3) == 0) || rng.Intn(40) == 0
+	// preallocation writes FileSize zero bytes per log: only with the small chunk sizes, except rarely.
+	// A preallocated file is never truncated by a rewind: what a rewind leaves in it depends on which
+	// buffered bytes chunk rotation had already flushed, which the model does not represent; rewinds over
+	// buffered bytes (attempts that fail after their tx-log append when cLogBuf is full, commit loops
+	// that stop midway) only occur under external commit allowance: no preallocation there.
+	c.Prealloc = !c.Ext0 && ((c.FileSize != 0 && rng.Intn(3) == 0) || rng.Intn(40) == 0)
 	if !c.Embedded && rng.Intn(6) == 0 {
 		c.IOConc = 2 + rng.Intn(2)
 	}
@@ -190,7 +188,7 @@ func (w *world) nextStep(rng *rand.Rand) *Step {
 		n := []uint64{0, cid, cid + 1, cid + 1, cid + 2, pid, pid, pid + 1}
 		return &Step{Kind: "discard", N: n[rng.Intn(len(n))]}
 	case x < 92:
-		if w.cfg.FileSize != 0 {
+		if w.cfg.Prealloc {
 			return &Step{Kind: "sync"}
 		}
 		return &Step{Kind: "setext", B: rng.Intn(2) == 0}
@@ -424,8 +422,10 @@ func Gen(r *vk.Run, n int) error {
 			return err
 		}
 	}
-	if err := staleClogTail(r); err != nil {
-		return err
+	for _, prealloc := range []bool{false, true} {
+		if err := staleClogTail(r, prealloc); err != nil {
+			return err
+		}
 	}
 	nc := n/12 + 2
 	if thorough {
@@ -444,13 +444,21 @@ func Gen(r *vk.Run, n int) error {
 // precommit 1..8; AllowCommitUpto(8); Discard(8); Sync() stops midway after appending the commit-log
 // entries of 1..7 (chunk rotation flushes most of them to the first chunk file);
 // SetExternalCommitAllowance(true); Discard(3); precommit new 3, 4; AllowCommitUpto(4); Sync() commits
-// 1..4 (the commit log is rewound with SetOffset, which never truncates the file: the stale entries of the
-// OLD 5, 6, 7 stay behind); Close; Open counts them: committed id 7, and tx 5 chains to the DISCARDED tx 4.
-func staleClogTail(r *vk.Run) error {
+// 1..4 (the commit log is rewound with SetOffset). Before 09014a8 SetOffset never truncated the file: the stale
+// entries of the OLD 5, 6, 7 stayed behind, Open counted them: committed id 7, tx 5 chained to the DISCARDED
+// tx 4. Since 09014a8 the rewind truncates (fixed), except for preallocated files (second variant: still fails).
+func staleClogTail(r *vk.Run, prealloc bool) error {
 	cfg := base(true, false, true)
 	cfg.MaxActive = 20
 	cfg.FileSize = 256
-	w, err := newWorld(r, fmt.Sprintf("seed %d stale-clog-tail", r.Seed), cfg)
+	cfg.Prealloc = prealloc
+	name := "stale-clog-tail"
+	if prealloc {
+		// a preallocated commit log is never truncated (09014a8 keeps its size by design): the stale
+		// entries stay in the file and OpenWith's search for the last non-zero entry counts them
+		name = "stale-clog-tail-prealloc"
+	}
+	w, err := newWorld(r, fmt.Sprintf("seed %d %s", r.Seed, name), cfg)
 	if err != nil {
 		return err
 	}
@@ -489,12 +497,12 @@ func staleClogTail(r *vk.Run) error {
 	}
 	w.collect = false
 	if broken != "" {
-		w.r.Finding(fmt.Sprintf("stale-clog-tail: after a clean Close/Open the committed id is %d (was %d) and the chain is broken: %s [%s]", after, before, broken, w.tag))
+		w.r.Finding(fmt.Sprintf("%s: after a clean Close/Open the committed id is %d (was %d) and the chain is broken: %s [%s]", name, after, before, broken, w.tag))
 	}
 	for _, f := range other {
 		w.r.Finding(f + " [" + w.tag + "]")
 	}
-	r.Stats["falsifier/stale-clog-tail"]++
+	r.Stats["falsifier/"+name]++
 	return nil
 }
 
